@@ -210,5 +210,7 @@ class Harness:
             else:
                 r = dict(byname[n])
                 r.update(m)
+                if m.get('kind') == 'poly':
+                    r['backend'] = 'poly-normal-form'       # decided by exact normalisation; the solver only saw the constant
                 out.append(r)
         return out, wall
